@@ -1,2 +1,6 @@
-import Blackbird
-#print axioms Blackbird.dictGet
+import Blackbird.Props.C18
+#print axioms Blackbird.C18_layout_irrelevant
+#print axioms Blackbird.C18_every_layout_parses
+#print axioms Blackbird.C18_loaded_program_unchanged
+#print axioms Blackbird.C18_final_newline_irrelevant
+#print axioms Blackbird.C18_statement_line_ends
